@@ -418,3 +418,7 @@ package keeper
 //@ callers C04/applied-only-by-the-end-block-batch: (Keeper).ExecuteSwapRequests
 //@ havoc-only
 
+
+//@ func (Keeper).GetTokenPrice
+//@ modifies table:amm~:types.KeyPrefix/types.PoolKey
+//@ frame-only
